@@ -19,10 +19,14 @@
    and the step counter.
 
    The bucketed table here is a simple model of my own (buckets = function from
-   index to the keys stored there, growth by re-bucketing); the refinement of the
-   real hashtable.go (bucket arrays of 8 entries, overflow chains, tombstones) to
-   an insertion-ordered map is C12's theorem and is assumed for the link between
-   this table and the code.  No proofs here. *)
+   index to the keys stored there, growth by re-bucketing).  The real
+   hashtable.go (bucket arrays of 8 entries, overflow chains, tombstones, the
+   next / prevLink list) is C12's model; ModelC12.v runs this same machine over
+   it and ProofsC12.v derives, from C12's refinement theorems, that the real
+   table too is independent of the hash function and that the two machines have
+   the same transcripts (Properties.v: real_table_order_independent_of_hash,
+   exec_deterministic_real_table) -- a proved corollary, not an assumption.
+   No proofs here. *)
 From Coq Require Import ZArith NArith List Bool Arith.
 From SV Require Import Common.GoInt.
 Import ListNotations.
